@@ -14,7 +14,7 @@ func c10ConfChange(c *Check) {
 	stepLeader := p.Func("raft", "stepLeader")
 	pendingF := p.Field("raft", "raft", "pendingConfIndex")
 	appliedF := p.Field("raft", "raftLog", "applied")
-	committedF := p.Field("raft", "raftLog", "committed")
+	_ = p.Field("raft", "raftLog", "committed")
 	raftLogF := p.Field("raft", "raft", "raftLog")
 	trkF := p.Field("raft", "raft", "trk")
 	cfgF := p.Field("tracker", "ProgressTracker", "Config")
@@ -187,58 +187,7 @@ func c10ConfChange(c *Check) {
 		}
 		c.Result(okV && okOrder, "C10.N", "becomeLeader sets pendingConfIndex", fnName(becomeLeader), p.Pos(becomeLeader.Pos()), "pendingConfIndex <- lastIndex() after reset and before the no-op is appended", "")
 	}
-	// --- C10.H: no campaign with a committed but unapplied change
-	hup := p.Method("raft", "raft", "hup")
-	campaign := p.Method("raft", "raft", "campaign")
-	hasUnapplied := p.Method("raft", "raft", "hasUnappliedConfChanges")
-	if hup != nil && campaign != nil && hasUnapplied != nil {
-		hfi := p.Info(hup)
-		for _, ci := range p.CallsIn(hup, campaign) {
-			rr := hfi.Sym(callArgs(ci)[0])
-			pr := p.Prove(hfi, ci, []Req{ReqBool(CallSym(hasUnapplied, rr), false)})
-			c.Result(pr.OK, "C10.H", "campaign only without unapplied conf changes", fnName(hup), p.site(ci), "!r.hasUnappliedConfChanges()", describeProof(pr), pr.Chain...)
-		}
-		// other callers of campaign: from a won pre-vote (stepCandidate) only
-		for _, cs := range p.CallsTo(campaign) {
-			if cs.Caller == hup {
-				continue
-			}
-			ok := cs.Caller == p.Func("raft", "stepCandidate")
-			c.Result(ok, "C10.H", "caller of campaign", fnName(cs.Caller), p.site(cs.Instr), "campaign is started by hup, or continued by a pre-candidate that won (which passed hup)", "")
-		}
-		// the scan covers (applied, committed] and both entry types
-		ufi := p.Info(hasUnapplied)
-		scan := p.Method("raft", "raftLog", "scan")
-		ur := ufi.Sym(hasUnapplied.Params[0])
-		for _, ci := range p.CallsIn(hasUnapplied, scan) {
-			args := callArgs(ci)
-			lo, hi := ufi.Sym(args[1]), ufi.Sym(args[2])
-			dlo := LinOf(lo)
-			dlo.add(LinOf(FieldOf(FieldOf(ur, raftLogF), appliedF)), -1)
-			dhi := LinOf(hi)
-			dhi.add(LinOf(FieldOf(FieldOf(ur, raftLogF), committedF)), -1)
-			c.Result(len(dlo.T) == 0 && dlo.K == 1 && len(dhi.T) == 0 && dhi.K == 1, "C10.H", "unapplied scan window", fnName(hasUnapplied), p.site(ci), "scan [applied+1, committed+1)", fmt.Sprintf("[%s, %s)", lo, hi))
-		}
-		cc1, cc2 := p.ConstVal("raftpb", "EntryConfChange"), p.ConstVal("raftpb", "EntryConfChangeV2")
-		seen := map[int64]bool{}
-		for _, an := range hasUnapplied.AnonFuncs {
-			afi := p.Info(an)
-			for _, b := range an.Blocks {
-				if iff, ok := b.Instrs[len(b.Instrs)-1].(*ssa.If); ok && afi.Reach[b.Index] {
-					for _, a := range atomsOf(afi.Sym(iff.Cond), true) {
-						if a.K == AEq && len(a.L.T) == 1 {
-							for k, s := range a.L.S {
-								if s.K == KCall && s.Fn != nil && s.Fn.Name() == "GetType" {
-									seen[-a.L.K*a.L.T[k]] = true
-								}
-							}
-						}
-					}
-				}
-			}
-		}
-		c.Result(seen[cc1] && seen[cc2], "C10.H", "unapplied scan matches both conf-change entry types", fnName(hasUnapplied), p.Pos(hasUnapplied.Pos()), "EntryConfChange and EntryConfChangeV2", fmt.Sprint(seen))
-	}
+	c10Hup(c)
 	// --- C10.A: one application path
 	changerT := p.Type("confchange", "Changer")
 	applyCC := p.Method("raft", "raft", "applyConfChange")
@@ -426,5 +375,76 @@ func c10Transitions(c *Check) {
 	}
 	if allOK {
 		c.Ok("C10.E", "ConfChangeV2.EnterJoint 9-case table", fnName(enterJ), p.Pos(enterJ.Pos()), "joint iff transition != Auto || len(changes) > 1", strings.Join(rows, " "))
+	}
+}
+
+// C10.H — no campaign while a committed configuration change is unapplied.
+func c10Hup(c *Check) {
+	p := c.P
+	appliedF := p.Field("raft", "raftLog", "applied")
+	committedF := p.Field("raft", "raftLog", "committed")
+	raftLogF := p.Field("raft", "raft", "raftLog")
+	// --- C10.H: no campaign with a committed but unapplied change
+	hup := p.Method("raft", "raft", "hup")
+	campaign := p.Method("raft", "raft", "campaign")
+	hasUnapplied := p.Method("raft", "raft", "hasUnappliedConfChanges")
+	if hup != nil && campaign != nil && hasUnapplied != nil {
+		hfi := p.Info(hup)
+		for _, ci := range p.CallsIn(hup, campaign) {
+			rr := hfi.Sym(callArgs(ci)[0])
+			pr := p.Prove(hfi, ci, []Req{ReqBool(CallSym(hasUnapplied, rr), false)})
+			c.Result(pr.OK, "C10.H", "campaign only without unapplied conf changes", fnName(hup), p.site(ci), "!r.hasUnappliedConfChanges()", describeProof(pr), pr.Chain...)
+		}
+		// other callers of campaign: from a won pre-vote (stepCandidate) only
+		for _, cs := range p.CallsTo(campaign) {
+			if cs.Caller == hup {
+				continue
+			}
+			ok := cs.Caller == p.Func("raft", "stepCandidate")
+			c.Result(ok, "C10.H", "caller of campaign", fnName(cs.Caller), p.site(cs.Instr), "campaign is started by hup, or continued by a pre-candidate that won (which passed hup)", "")
+		}
+		// the scan covers (applied, committed] and both entry types
+		ufi := p.Info(hasUnapplied)
+		{
+			ur0 := ufi.Sym(hasUnapplied.Params[0])
+			for _, ret := range returnsOf(ufi) {
+				v := ufi.Sym(ret.Results[0])
+				if v.K == KConst && v.C != nil && v.C.String() == "false" {
+					f := ufi.FactsAt(ret)
+					ok := f.ImpliesCmp(FieldOf(FieldOf(ur0, raftLogF), appliedF), ">=", FieldOf(FieldOf(ur0, raftLogF), committedF))
+					c.Result(ok, "C10.H", "hasUnappliedConfChanges early 'no'", fnName(hasUnapplied), p.site(ret), "answers false without scanning only when applied >= committed", strings.Join(f.Describe(), "; "))
+				}
+			}
+		}
+		scan := p.Method("raft", "raftLog", "scan")
+		ur := ufi.Sym(hasUnapplied.Params[0])
+		for _, ci := range p.CallsIn(hasUnapplied, scan) {
+			args := callArgs(ci)
+			lo, hi := ufi.Sym(args[1]), ufi.Sym(args[2])
+			dlo := LinOf(lo)
+			dlo.add(LinOf(FieldOf(FieldOf(ur, raftLogF), appliedF)), -1)
+			dhi := LinOf(hi)
+			dhi.add(LinOf(FieldOf(FieldOf(ur, raftLogF), committedF)), -1)
+			c.Result(len(dlo.T) == 0 && dlo.K == 1 && len(dhi.T) == 0 && dhi.K == 1, "C10.H", "unapplied scan window", fnName(hasUnapplied), p.site(ci), "scan [applied+1, committed+1)", fmt.Sprintf("[%s, %s)", lo, hi))
+		}
+		cc1, cc2 := p.ConstVal("raftpb", "EntryConfChange"), p.ConstVal("raftpb", "EntryConfChangeV2")
+		seen := map[int64]bool{}
+		for _, an := range hasUnapplied.AnonFuncs {
+			afi := p.Info(an)
+			for _, b := range an.Blocks {
+				if iff, ok := b.Instrs[len(b.Instrs)-1].(*ssa.If); ok && afi.Reach[b.Index] {
+					for _, a := range atomsOf(afi.Sym(iff.Cond), true) {
+						if a.K == AEq && len(a.L.T) == 1 {
+							for k, s := range a.L.S {
+								if s.K == KCall && s.Fn != nil && s.Fn.Name() == "GetType" {
+									seen[-a.L.K*a.L.T[k]] = true
+								}
+							}
+						}
+					}
+				}
+			}
+		}
+		c.Result(seen[cc1] && seen[cc2], "C10.H", "unapplied scan matches both conf-change entry types", fnName(hasUnapplied), p.Pos(hasUnapplied.Pos()), "EntryConfChange and EntryConfChangeV2", fmt.Sprint(seen))
 	}
 }
